@@ -115,11 +115,11 @@ func (a Array) Values() []Value {
 
 // Hash computes a hash for a Array.
 func (a Array) Hash(seed uintptr) uintptr {
-	h := seed
+	var h uintptr
 	for e := a.Enumerator(); e.MoveNext(); {
 		h ^= e.Current().Hash(seed)
 	}
-	return h
+	return finishHash(h, seed)
 }
 
 // Equal tests two Sets for equality. Any other type returns false.
